@@ -60,6 +60,11 @@ static std::set<std::string> expected_saved(ga::App &m) {
     for (auto &p : m.spec.sub) {
       if (!p.has_default) continue;
       if (self_off && p.field != ga::ON) continue;   // only the enabling port of a self-disabled sub-tree is visited
+      if (ga::kind_of(p.field) == ga::K_ABOOL) {   // 'sv#3/on': every element is its own line
+        ga::Val cur = ga::get_sub(*ss[k], p.field);
+        for (size_t j = 0; j < 3; j++) if (cur.ai[j] != p.dflt[0].ai[j]) e.insert(pre[k] + "sv" + std::to_string(j) + "/on");
+        continue;
+      }
       if (!ga::get_sub(*ss[k], p.field).eq(p.dflt[0], ga::kind_of(p.field))) e.insert(pre[k] + ga::name_of(p.field));
     }
   }
